@@ -8,6 +8,8 @@ pub mod avec;
 pub mod bitset;
 pub mod resolve;
 pub mod sortlex;
+pub mod metainherit;
+pub mod tokvals;
 
 /// `std::env::var_os` stub: the dev-profile `log!` macro of the runtime consults
 /// `RUSTEMO_TRACE` on every call; tracing is not a subject of any property.
